@@ -2,6 +2,7 @@ import GitBugModel.Model.GitTree
 import GitBugModel.Model.Refs
 import GitBugModel.Gen.Frame
 import GitBugModel.Model.Ident
+import GitBugModel.Model.Config
 import Std.Data.String.ToInt
 /-!
 # C15 — git-bug never disturbs the host repository and writes only valid git data
@@ -413,5 +414,64 @@ example : cleanIdent "  \"Au <thor>.\" ".toList = "Au thor".toList ∧ cleanIden
 example : dateOk "1790748343 +0000".toList = true := by decide
 
 end IdentLines
+
+
+/-! ## the configuration: what removing git-bug's keys removes -/
+section ConfigFrame
+open GitBugModel.Config
+
+/-- `RemoveAll("git-bug")` (what `wipe` does): every section whose name is not `git-bug` — whatever
+it is called: `git-bugs`, `git-bug-prompt`, `gitbug` — stays as it was, in place; no section named
+`git-bug` remains -/
+theorem removeAll_section_frame (lower : String → String) (c c' : Cfg) (sec : String)
+    (h : removeAll lower c sec none = .ok c') :
+    c' = c.filter (fun s => !isName lower s sec) ∧
+    (∀ s ∈ c, isName lower s sec = false → s ∈ c') ∧ (∀ s ∈ c', isName lower s sec = false) := by
+  unfold removeAll at h
+  simp only at h
+  split at h
+  · injection h with h
+    subst h
+    refine ⟨rfl, ?_, ?_⟩
+    · intro s hs hn
+      exact List.mem_filter.mpr ⟨hs, by simp [hn]⟩
+    · intro s hs
+      have := (List.mem_filter.mp hs).2
+      simpa using this
+  · cases h
+
+/-- a longer prefix (`git-bug.bridge.x`): only the section `git-bug` can change, and in it only the
+subsection and the option of that name -/
+theorem removeAll_sub_frame (lower : String → String) (c c' : Cfg) (sec r : String)
+    (h : removeAll lower c sec (some r) = .ok c') :
+    c'.length = c.length ∧ ∀ s ∈ c, isName lower s sec = false → s ∈ c' := by
+  unfold removeAll at h
+  simp only at h
+  split at h
+  · cases h
+  · rename_i s hfind
+    split at h
+    · injection h with h
+      subst h
+      refine ⟨by simp, ?_⟩
+      intro x hx hn
+      have hsn : isName lower s sec = true := by
+        have := List.find?_some hfind
+        simpa using this
+      have hne : (x == s) = false := by
+        apply beq_false_of_ne
+        intro e; subst e; rw [hsn] at hn; cases hn
+      exact List.mem_map.mpr ⟨x, hx, by simp [hne]⟩
+    · cases h
+
+/-- the look-alikes of the harness's host repositories, evaluated by the kernel -/
+example :
+    let c : Cfg := [⟨"core", [("bare", "false")], []⟩, ⟨"git-bug", [("user-identity", "abc")], [⟨"bridge.x", [("token", "t")]⟩]⟩,
+                    ⟨"git-bug-prompt", [("enabled", "true")], []⟩, ⟨"git-bugs", [("notours", "1")], []⟩]
+    (match removeAll id c "git-bug" none with | .ok c' => keys c' | .invalidPrefix => []) =
+      ["core.bare", "git-bug-prompt.enabled", "git-bugs.notours"] := by
+  decide
+
+end ConfigFrame
 
 end GitBugModel.Props.C15
